@@ -167,6 +167,11 @@ def run(ctx):
             continue
         nx = sorted(int(x) for x in mm.group(1).split(",") if x)
         want = {"jump": [[tgt]], "branch": [sorted([tgt, fall])], "link": [[tgt], sorted([tgt, fall])]}[kind]
+        ops_ = [o.strip() for o in t.split(None, 1)[1].split(",")][:-1]
+        if kind == "branch" and all(o in ("zero", "x0") for o in ops_):
+            # zero compared with zero: the outcome is known, and the graph may (but need not) say so
+            always = t.split()[0].lower() in ("beq", "bge", "bgeu", "ble", "bleu", "beqz", "bgez", "blez")
+            want = want + [[tgt] if always else [fall]]
         if nx not in want:
             failing.append(dict(profile="debug", cmd="transfer " + t, program=prog, impl=line[:400],
                                 why="%r transfers control to its label (node %d)%s; its successors in the graph are %s" % (
